@@ -21,6 +21,9 @@ REQ_BODIES = [b"grant_type=authorization_code&code=c", b"a=" + b"b" * 2000, b"a=
 FRAMINGS = ["cl", "chunked", "close", "close10"]
 PATHS = ["/token", "/t?x=1&y=%20z", "/"]
 AUTHS = [None, b"Basic YWFhOmJiYg=="]
+# circumstances per adapter (see gen() and ASSUMPTIONS)
+FLAGS = {"reqwest": ["obs", "reason", "nested", "put", "obs+reason"], "reqwest_blocking": ["obs", "reason", "nested", "put", "obs+reason"],
+         "curl": ["obs", "reason", "nested", "put", "obs+reason"], "ureq": ["obs", "reason", "nested", "put", "obs+reason"]}
 
 
 def line(adapter, reqbody, auth, path, status, ct, framing, body, fault):
@@ -61,7 +64,9 @@ def gen(tier, rng):
                 out.append(("NETFLOW %s %d %s %s" % (a, st, C.topt(ct2), C.tb(body)), "flow-repeated-header"))
         # literals that are new in the source (gen/srclit.py): statuses, media types, reply and request body sizes
         from gen import srclit as SL
-        for st in SL.statuses():
+        # (interim 1xx replies and the body-less 204 / 205 / 304 are not replies with a body in HTTP: left out, as in STATUSES)
+        lit_statuses = [st for st in SL.statuses() if st >= 200 and st not in (204, 205, 304)]
+        for st in lit_statuses:
             for ct in CTS:
                 for bi, body in enumerate(REPLY_BODIES[:7]):
                     i += 1
@@ -89,6 +94,14 @@ def gen(tier, rng):
                     i += 1
                     out.append((line(a, REQ_BODIES[0], None, "/token", st, CTS[i % 2], fr, bytes((j * 31 + k) % 256 for j in range(k)), "none"), "source-literal/reply-size"))
             out.append((line(a, b"a=" + b"b" * max(k - 2, 0), AUTHS[1], "/token", 200, CTS[1], "cl", REPLY_BODIES[5], "none"), "source-literal/request-size"))
+        # circumstances that are no faults and change nothing in what the adapter must deliver: non-UTF-8 bytes in UNRELATED
+        # reply headers, a reason phrase with a colon, a server whose handler makes its own call through the same adapter before
+        # it replies (two calls of the adapter in flight in one process), an earlier call with a method the adapter refuses
+        for flag in FLAGS.get(a, []):
+            for st, ct, body in ((200, CTS[1], REPLY_BODIES[5]), (400, CTS[1], REPLY_BODIES[1]), (200, None, REPLY_BODIES[2]), (503, CTS[2], b"")):
+                for fr in ("cl", "chunked", "close"):
+                    i += 1
+                    out.append((line(a, REQ_BODIES[i % 2], AUTHS[i % 2], PATHS[i % 3], st, ct, fr + "+" + flag, body, "none"), "circumstance/" + flag))
         # whole flows: an OAuth error reply is classified as through an in-memory client
         for st, body in ((400, b"{\"error\":\"invalid_grant\"}"), (400, b"{\"error\":\"authorization_pending\"}"), (401, b"{\"error\":\"invalid_client\",\"error_description\":\"x\"}"),
                          (200, b"{\"access_token\":\"tok\",\"token_type\":\"Bearer\",\"expires_in\":3600}"), (500, b""), (503, b"<html>"), (200, b"not json"), (403, b"{\"error\":\"custom\"}")):
@@ -108,7 +121,7 @@ def run(tier, rng, C):
     C.IMPL_BIN[0] = os.path.join(C.TARGET, "debug", "harness_net")
     try:
         cases = gen(tier, rng)
-        v, stats = C.differential("C09", cases, finding_class=finding_class, shrinkable=False,
+        v, stats = C.differential("C09", cases, finding_class=finding_class, shrinkable=False, retry=lambda o: o == "PANIC" or "HANG" in o or "cli: PANIC" in o,
                                   nontrivial=lambda l, o: "cli: ok" in o or o.startswith("ok ") or o.startswith("server "))
         # bodies too large for the line protocol (beyond every library's default in-memory caps): pseudo-random
         # bytes generated on both sides; the model's prediction (adapter_call a (SReply r) = Some r, the request
@@ -123,6 +136,9 @@ def run(tier, rng, C):
                 for fr in (FRAMINGS[:3] if tier != "quick" else [FRAMINGS[k % 3]]):
                     big.append(("NETBIG %s %d %d %s %d" % (a, rn, qn, fr, 200 if k % 2 == 0 else 400), rn))
         outs = C.run_lines(C.IMPL_BIN[0], [l for l, _ in big], shards=4)
+        for k, o in enumerate(outs):
+            if o == "PANIC" or "HANG" in o or "cli: PANIC" in o:      # once more, alone, with a longer limit (a loaded machine)
+                outs[k] = C.run_lines(C.IMPL_BIN[0], [big[k][0]], shards=1, env=dict(C.ENV, VERIF_NET_WATCHDOG="90"))[0]
         bad = 0
         for (l, rn), o in zip(big, outs):
             want = "srv:1 reqsame=1 | cli: ok %s same=1 len=%d" % (l.split(" ")[5], rn)
